@@ -387,3 +387,29 @@ def read_mutlog(path, strip_prefix=None):
     if strip_prefix:
         out = [l.replace(strip_prefix, '$C') for l in out]
     return out
+
+
+def dump_rock(path, slot_size):
+    """Slot table of a rock db file (replay aid): slot, key prefix, entrySize, payloadSize, version, firstSlot,
+    nextSlot of every non-empty slot, plus the X-V tag if the slot holds the reply header."""
+    import re
+    import struct
+    out = []
+    try:
+        with open(path, 'rb') as f:
+            f.seek(16384)
+            i = 0
+            while True:
+                b = f.read(slot_size)
+                if len(b) < ROCK_HDR:
+                    break
+                k0, k1, esz, psz, ver, first, nxt = struct.unpack('<QQQIIii', b[:ROCK_HDR])
+                if first or nxt or psz:
+                    body = b[ROCK_HDR:ROCK_HDR + psz]
+                    tags = sorted(set(t.decode() for t in re.findall(rb'X-V: (u[0-9]+-v[0-9]+)', body)))
+                    out.append('slot %3d key %016x entrySize %6d payload %5d version %d first %3d next %3d %s' % (
+                        i, k0, esz, psz, ver, first, nxt, ' '.join(tags)))
+                i += 1
+    except OSError as e:
+        out.append('cannot read %s: %s' % (path, e))
+    return out
